@@ -13,10 +13,10 @@ from ..core import canon, roundtrip, space
 PROPERTY = "C16"
 LEVEL = "model_checking"
 RULE = (
-    "states = histories over {write(cfg) for cfg in the writer alphabet} u {replace index, edit index in place, insert "
-    "a curve at position 0, edit another curve, edit a header value, edit WRAP} from 12 roots (scratch LASFiles with "
+    "states = histories over {write(cfg) for cfg in the writer alphabet} u {replace index, edit index in place, shift the whole index by 0.01, insert "
+    "a curve at position 0, edit another curve, edit a header value, edit WRAP} from 14 roots (scratch LASFiles with "
     "increasing / decreasing / irregular / single-sample index, with and without units; files read with STOP agreeing "
-    "or not, STRT disagreeing, 1.2, wrapped, empty-valued items, text curve, duplicate mnemonics); on every write "
+    "or not, STRT disagreeing, 1.2, wrapped, empty-valued items, text curve, duplicate mnemonics, depths around 3000, STRT/STOP/STEP units disagreeing); on every write "
     "transition: (a) frame - full snapshot before/after differs only inside the statement's allow-list, VERS untouched; "
     "(b) repeat - a write following a write with the same options is byte-identical and changes nothing; (c) truth - "
     "when the index is dirty, read(output) has STRT/STOP = first/last index, STEP = first increment, units = index "
@@ -37,7 +37,7 @@ FILE = (
 )
 
 
-def file_text(vers="2.0", wrap="NO", strt="1.0", stop="3.0", step="1.0", text_curve=False, dup=False):
+def file_text(vers="2.0", wrap="NO", strt="1.0", stop="3.0", step="1.0", text_curve=False, dup=False, deep=False, mixed_units=False):
     well = "w1 : well name" if vers == "2.0" else "well name : w1"
     extra = ""
     rows = [["1.0", "10.5"], ["2.0", "-999.25"], ["3.0", "30.5"]]
@@ -53,7 +53,15 @@ def file_text(vers="2.0", wrap="NO", strt="1.0", stop="3.0", step="1.0", text_cu
         data = "".join("%s\n%s\n" % (r[0], " ".join(r[1:])) for r in rows)
     else:
         data = "".join(" ".join(r) + "\n" for r in rows)
-    return FILE.format(vers=vers, wrap=wrap, strt=strt, stop=stop, step=step, well=well, extra_curve=extra, data=data)
+    text = FILE.format(vers=vers, wrap=wrap, strt=strt, stop=stop, step=step, well=well, extra_curve=extra, data=data)
+    if deep:
+        # realistic depths: a tolerance that scales with the magnitude must not hide an index edit
+        for a, b in (("1.0", "3000.0"), ("2.0", "3000.5"), ("3.0", "3001.0")):
+            text = text.replace("\n%s " % a, "\n%s " % b)
+        text = text.replace("STRT.M 1.0", "STRT.M 3000.0").replace("STOP.M 3.0", "STOP.M 3001.0").replace("STEP.M 1.0", "STEP.M 0.5")
+    if mixed_units:
+        text = text.replace("STOP.M", "STOP.F").replace("STEP.M", "STEP.F")
+    return text
 
 
 ROOTS = {
@@ -61,6 +69,7 @@ ROOTS = {
     "read-agree": file_text(), "read-stop-wrong": file_text(stop="2.5"), "read-strt-wrong": file_text(strt="0.5"),
     "read-12": file_text(vers="1.2"), "read-wrapped": file_text(wrap="YES"), "read-text": file_text(text_curve=True),
     "read-dup": file_text(dup=True), "read-stop-wrong-12": file_text(vers="1.2", stop="9"),
+    "read-deep": file_text(deep=True), "read-mixed-units": file_text(mixed_units=True),
 }
 
 
@@ -97,7 +106,8 @@ def write_cfgs(tier):
     return base
 
 
-EDITS = ["replace-index", "inplace-index", "insert-curve0", "edit-other-curve", "edit-header", "edit-wrap"]
+EDITS = ["replace-index", "inplace-index", "nudge-index", "insert-curve0", "edit-other-curve", "edit-header", "edit-wrap"]
+INDEX_EDITS = ("replace-index", "inplace-index", "nudge-index", "insert-curve0")
 
 
 def alphabet(tier):
@@ -177,6 +187,8 @@ def apply_edit(las, e, step):
         las.curves[0].data = np.asarray(las.curves[0].data, dtype=float) + 1000.0 + step
     elif e == "inplace-index":
         las.index[-1] = las.index[-1] + 0.5
+    elif e == "nudge-index":
+        las.index[...] = las.index + 0.01  # a small shift of the whole index, in place
     elif e == "insert-curve0":
         n = len(las.curves[0].data)
         las.insert_curve(0, "NEWIDX%d" % step, np.arange(n, dtype=float) * 2.0 + 50.0 + step, unit="ft")
@@ -214,7 +226,7 @@ def replay_history(root, tier, history):
             ctx.last_write = (op[1], do_write(ctx.las, cfgs[op[1]]))
         else:
             apply_edit(ctx.las, op[1], step)
-            if op[1] in ("replace-index", "inplace-index", "insert-curve0"):
+            if op[1] in INDEX_EDITS:
                 ctx.dirty = True
             ctx.last_write = None
     return ctx
@@ -244,7 +256,7 @@ def step_check(root, tier, history, op):
             return [], None  # edit not applicable in this state
         if not ok:
             return [], None
-        dirty = ctx.dirty or op[1] in ("replace-index", "inplace-index", "insert-curve0")
+        dirty = ctx.dirty or op[1] in INDEX_EDITS
         return [], state_key(las, None, dirty)
     cfg = cfgs[op[1]]
     before = snapshot(las)
